@@ -63,6 +63,31 @@ def runTrace (s0 : State) (sched : List Nat) : String := Id.run do
   out := out.push ("END " ++ status ++ " F " ++ finalLine s)
   return " ".intercalate out.toList
 
+/-- replay a schedule (no fallback), then name the thread the harness should probe: a thread that is not
+finished and cannot step must stay blocked when released -/
+def runProbe (s0 : State) (sched : List Nat) (probe : String) : String := Id.run do
+  let mut s := s0
+  let mut out : Array String := #["I/" ++ joinNats (enabledSet s)]
+  for t in sched do
+    match step s t with
+    | some s' => out := out.push (stepTok s s' t); s := s'
+    | none => out := out.push ("x" ++ toString t)
+  let blocked (t : Nat) : Bool :=
+    match s.threads[t]? with
+    | some th => th.pc != .done && (step s t).isNone
+    | none => false
+  let tok :=
+    if probe == "auto" then
+      match (List.range s.threads.length).find? blocked with
+      | some t => "P" ++ toString t ++ "=blocked"
+      | none => "P-1=na"
+    else
+      match probe.toNat? with
+      | some t => "P" ++ toString t ++ (if blocked t then "=blocked" else "=na")
+      | none => "P?=na"
+  out := out.push tok
+  return " ".intercalate out.toList
+
 /-- shared object touched by the next step of a thread (for the independence relation):
 0 = empty_, 1 = used_, 2 = produce mutex + produce cursor + slot, 3 = consume mutex + cursor + slot,
 slots are added as 10 + index. -/
@@ -188,6 +213,10 @@ def handle (line : String) : IO Unit := do
   | ["pcq", cap, prods, quotas, sched] =>
     match parseInit cap prods quotas with
     | some s0 => IO.println (runTrace s0 (parseNats sched))
+    | none => IO.println "bad-op"
+  | ["pcq", cap, prods, quotas, sched, probe] =>
+    match parseInit cap prods quotas with
+    | some s0 => IO.println (runProbe s0 (parseNats sched) probe)
     | none => IO.println "bad-op"
   | ["enum", cap, prods, quotas, limit, mode] =>
     match parseInit cap prods quotas, limit.toNat? with
